@@ -12,7 +12,9 @@
 (*     node    id of the Merkle-DAG node (entry + causal deps) it carries  *)
 (*     deps    node ids the entry was written on top of                    *)
 (* A base is [addr, open, writers, sigOk] (open = anyone can write,        *)
-(* writers = key ids allowed by the owner-signed permissions).             *)
+(* writers = key ids allowed by the owner-signed permissions).  An address *)
+(* id stands for the pair (meta, owner): two ids differ when either half   *)
+(* differs.                                                                *)
 (*                                                                         *)
 (* Part 1: what the code does (implementation-shaped; ant-registers        *)
 (*         register.rs / reg_crdt.rs + crdts MerkleReg), as pure operators *)
@@ -97,6 +99,13 @@ C06_AuthorisedAdd(P, b, o, res, before, after) ==
 C06_AuthorisedMerge(P, b, bs, res, before, after) ==
     /\ C06_Authorised(P, b, before, after)
     /\ ~SameBase(b, bs) => (res # "Ok" /\ after = before)
+
+\* "permitted by the register's OWNER-SIGNED permissions": a base register (address and permissions) whose bytes
+\* are not what the owner signed carries no owner-signed permissions at all, whatever signature accompanies it.
+\* `signed` = the signature presented is the owner's signature over exactly this base; `results` = what the
+\* checks of such a register returned (verify, verified_merge with it as the source); `entered` = number of
+\* operations that entered some replica through it.
+C06_OwnerSigned(signed, results, entered) == ~signed => ("Ok" \notin results /\ entered = 0)
 
 \* Results of merges are records [ok, ops, read]: ok = every merge call involved returned Ok.
 \* x = a merged with b, y = b merged with a
